@@ -299,7 +299,7 @@ fn child_session(pty: &Pty, seed: u64, i: usize, tier: Tier, which: Which) -> Ou
         let quit = &quit;
         sc.spawn(move || {
             let mut r = Prng::new(cseed);
-            let mut model = Model { path_len: (0..traces).map(|_| r.range(1, 12) as usize).collect(), round: vec![0; traces], first_ttl: 1 };
+            let mut model = Model::new((0..traces).map(|_| r.range(1, 12) as usize).collect(), 1);
             let record = |e: String| {
                 let mut h = history2.lock().unwrap();
                 if h.len() >= 12 {
